@@ -27,6 +27,7 @@ type Obligation struct {
 	Sweep    bool   // generated under havoc abstraction
 	Uses     []string
 	Fx       *Fx
+	HasSteps bool // preceded by asserted proof steps (try the reduced hypothesis set first)
 }
 
 type ParamInfo struct {
@@ -64,6 +65,10 @@ type Fx struct {
 	inlineSt []*ssa.Function
 	Trusted  map[string]bool // extern / trusted contracts used
 	UsedSpec map[string]bool
+	LemmasUsed map[string]bool
+	nvInclusive bool
+	KeyFacts map[*Term]bool // assumptions that came from asserted proof steps
+	stepsActive bool
 	Trivial  int // contract obligations discharged by the term simplifier alone
 	ConstTables map[string]bool
 	TableInsts []*tableInst
@@ -136,6 +141,7 @@ func (fx *Fx) oblige(st *State, kind, site string, goal *Term, pos token.Pos) {
 	ob.Assume = fx.Assume[:len(fx.Assume):len(fx.Assume)]
 	ob.Inputs = fx.Params
 	ob.Fx = fx
+	ob.HasSteps = fx.stepsActive
 	fx.Obls = append(fx.Obls, ob)
 }
 
